@@ -19,6 +19,7 @@ class Feat:
 class Sub:
     def __init__(self, name, feats=(), data=True):
         self.name, self.feats, self.data = name, list(feats), data
+        self.cname = "cs_" + name        # its container: keeps this name when an alternative revision renames the submodule
         # (module, rev|None): the submodule imports this module under a prefix of ITS OWN (the main module imports the same module
         # under another prefix) and derives identities from its base identity — the revert of a failed load has to resolve the
         # base through the submodule's imports to unlink them (seed C17r3)
@@ -58,6 +59,8 @@ class Mod:
         self.extra_dev = list(kw.get("extra_dev", ()))
         self.extra_lref = list(kw.get("extra_lref", ()))
         self.faults = list(kw.get("faults", ()))           # model-only: (stage, LY_ERR) at which libyang refuses this source
+        self.amend_node = dict(kw.get("amend_node", ()))   # target import name -> top-level node its augments / deviations descend
+                                                           # into (default: container c); a submodule container is "cs_<sub>"
 
     def key(self):
         return "%s@%s" % (self.name, self.rev or "-")
@@ -126,9 +129,10 @@ class Mod:
                 o.append("    " + self.extra_c)
             o.append("  }")
         for t in self.augments:
-            o.append("  augment /%s:c { leaf a_%s { type string; } }" % (t, self.name))
+            o.append("  augment /%s:%s { leaf a_%s { type string; } }" % (t, self.amend_node.get(t, "c"), self.name))
         for (t, i) in self.deviations:
-            o.append("  deviation /%s:c/%s:dv%d { deviate add { default %d; } }" % (t, t, i, i + 1))
+            nd = self.amend_node.get(t, "c")
+            o.append("  deviation /%s:%s/%s:%s%d { deviate add { default %d; } }" % (t, nd, t, "dv" if nd == "c" else "sv", i, i + 1))
         if self.misspell:
             o.append("  lefa zz { type string; }")
         if self.extra_top:
@@ -143,12 +147,16 @@ class Mod:
             (n, r) = s.idimp
             o.append("  import %s { prefix sp%s;%s }" % (n, n, (" revision-date %s;" % r) if r else ""))
             for x in ("ids", "idt"):
-                o.append("  identity %s_%s { base sp%s:idb_%s; }" % (x, s.name, n, n))
+                # (named after the submodule's container, which keeps its name when an alternative revision renames the submodule:
+                # the compiled print of the base module lists the derived identities by name)
+                o.append("  identity %s_%s { base sp%s:idb_%s; }" % (x, s.cname[3:], n, n))
         for f in s.feats:
             o.append("  feature %s%s" % (f.name, (" { if-feature %s; }" % f.iff) if f.iff else ";"))
         if s.data:
-            o.append("  container cs_%s {" % s.name)
+            o.append("  container %s {" % s.cname)
             o.append("    leaf ls { type string; }")
+            for i in range(5):
+                o.append("    leaf sv%d { type int8; }" % i)
             extra = []
             if not self.data and s is [x for x in self.subs if x.data][0]:
                 # the main module has no data of its own: its features (and those of data-less submodules) are shown here
@@ -196,14 +204,14 @@ class Mod:
         nodes = self.top_nodes()
         t.append("T%d" % len(nodes)); t += nodes
         t.append("Q%d" % len(aug))
-        for x in aug: t += [x, "c"]
+        for n, x in enumerate(aug): t += [x, self.amend_node.get(x, "c") if n < len(self.augments) else "c"]
         t.append("D%d" % len(dev))
-        for x in dev: t += [x, "c"]
+        for n, x in enumerate(dev): t += [x, self.amend_node.get(x, "c") if n < len(self.deviations) else "c"]
         return " ".join(t)
 
     def top_nodes(self):
         """names of the top-level data nodes in the order of the compiled module: main module, then submodules"""
-        return (["c"] if self.data else []) + ["cs_" + s.name for s in self.subs if s.data]
+        return (["c"] if self.data else []) + [s.cname for s in self.subs if s.data]
 
 
 def feats_tok(f):
@@ -493,6 +501,8 @@ def gen_set(rng, n=None):
                 if t.data:
                     if rng.random() < 0.35: m.augments.append(t.name)
                     if rng.random() < 0.25: m.deviations.append((t.name, i))
+                    if t.subs and t.subs[0].data and rng.random() < 0.4:
+                        m.amend_node[t.name] = t.subs[0].cname
                     if m.data and rng.random() < 0.35: m.lrefs.append(t.name)
                 if m.data and t.typedef and rng.random() < 0.4: m.uses_td.append(t.name)
                 if m.data and t.grouping and rng.random() < 0.4: m.uses_grp.append(t.name)
@@ -728,6 +738,11 @@ def gen_amend2_history(rng):
                data=rng.random() < 0.7)
     bad0.augments = rng.sample(["maa", "mbb"], 2)
     bad0.deviations = [(n, 3) for n in rng.sample(["maa", "mbb"], 2)]
+    if t1.subs[0].data:
+        # not always container c: the submodule's container of maa as the target node
+        for x in (early, bad0):
+            if rng.random() < 0.5:
+                x.amend_node["maa"] = "cs_maasub"
     if bad0.data and rng.random() < 0.3:
         bad0.lrefs = [rng.choice(["maa", "mbb"])]
     mods = [t1, t2, holder, early, bad0]
@@ -785,6 +800,10 @@ def gen_yl_dev_history(rng):
             subs=[Sub("mccsub", gen_feats(rng, "u"), False)] if rng.random() < 0.5 else [])
     d = Mod("mdd", rng.choice([None, "2019-01-01"]), imports=[("mcc", None)] if rng.random() < 0.5 else [("maa", None)],
             subs=[Sub("mddsub", [Feat("v1")], True)])
+    if a.subs[0].data:
+        for x in (b, c):
+            if rng.random() < 0.5:
+                x.amend_node["maa"] = "cs_maasub"
     mods = [a, b, c, d]
     h = History(EXPLICIT if rng.random() < 0.2 else 0)
     for m in mods:
